@@ -28,7 +28,15 @@ def judge(rec, variants):
         for cname in g["cfgs"]:
             n += 1
             cfgname, path = cname.split("@", 1)
-            oc, got, mg = mergeobs.run_merge(rec["l"], rec["r"], cfgname, style, plain, mergeat=path)
+            cfgname, _, extra = cfgname.partition("#")
+            kw = {}
+            if extra.startswith("rule:"):      # a [rules] entry in left-document coordinates, e.g. rule:/t/k=left (MC_MergeAtRules)
+                k, m = extra[5:].rsplit("=", 1)
+                kw["rules"] = {k: m}
+            elif extra.startswith("key:"):
+                k, m = extra[4:].rsplit("=", 1)
+                kw["keys"] = {k: m}
+            oc, got, mg = mergeobs.run_merge(rec["l"], rec["r"], cfgname, style, plain, mergeat=path, **kw)
             problem = None
             if oc == "crash":
                 problem = ("crash", got)
@@ -48,6 +56,8 @@ def judge(rec, variants):
                     h, a, o, s = cfgname.split("/")
                     tk = _target_kinds(rec["l"], path)
                     sig = "%s:%s<-%s:%s:%s" % (problem[0], tk, rec["r"][0]["k"], _pathkind(path), _dim(rec["r"], h, a, o, s))
+                    if extra:
+                        sig += ":" + extra.split("=")[0].replace(":/", ":").replace("/", ".")
                     if problem[0] == "crash":
                         sig += ":" + problem[1].split(" @ ")[-1].split(" ")[-1]
                     out.append((sig, "merge %s <- %s at %s under %s: %s" % (
@@ -106,6 +116,13 @@ def run(ctx):
             raise core.MachineryError("%s violated in %s (see %s)" % (r["violated"], cfg, r["log"]))
         recs.extend(core.read_csv_json_lines(f))
         os.remove(f)
+    # per-path rules / identity keys addressed beneath and at a merge point (MC_MergeAtRules)
+    f = ctx.path("MC_MergeAtRules.cases")
+    r = core.run_tlc(ctx, "MC_MergeAtRules", "MC_MergeAtRules_q.cfg", env={"CASES_OUT": f}, timeout=7200)
+    if r["violated"]:
+        raise core.MachineryError("%s violated in MC_MergeAtRules (see %s)" % (r["violated"], r["log"]))
+    recs.extend(core.read_csv_json_lines(f))
+    os.remove(f)
     items = [(rec, [("block", False)]) for rec in recs]
     total = info = nontrivial = 0
     for n, out in querycorpus.pmap(_work, items, chunk=200):
